@@ -132,7 +132,7 @@ def run(repo, tier):
     r.rule("R7.1", "a constant's key encodes its value injectively, including the sign of zero", floor=1)
     r.rule("R7.2", "keys contain the kind, the value's type name, the like key and one component per operand, in order", floor=6)
     r.rule("R7.3", "Expr.__new__ exits only through registration; the expression table is written once per miss, never on a hit", floor=6)
-    r.rule("R7.4", "Type singletons: __hash__ uses a subset of the fields __eq__ compares; the table is consulted before insertion", floor=2)
+    r.rule("R7.4", "Type singletons: __hash__ uses a subset of the fields __eq__ compares; the table is consulted before insertion; every scalar type spelling is parsed to its own (kind, bits)", floor=17)
     r.rule("R7.5", "no mapping or set in expr.py/context.py is keyed by a raw scalar value (a second interning table in front of registration)", floor=2)
 
     rel = "expr.py"
@@ -499,4 +499,33 @@ def run(repo, tier):
                 ok = True
     if not ok:
         raise AnalysisError("Type.__new__: table lookup not recognised")
+    # Type.fromobject: different spellings of scalar types denote different Type values (kind, bits) - a spelling whose width is
+    # lost makes `x: int32` and `x: int64` one symbol key.  The method is interpreted (sa/absint.py) on each spelling.
+    from sa.absint import Interp, Closure, Unsupported as IUnsupported, PyRaise
+
+    fo = repo.func(trel, "Type.fromobject")
+
+    class _Cls:
+        __absint_host__ = True
+
+        def __call__(self, context, kind, param=None):
+            return ("T", kind, param)
+
+        def fromobject(self, context, obj):
+            raise IUnsupported("recursive fromobject")
+
+    SPELL = {"int8": ("integer", 8), "int16": ("integer", 16), "int32": ("integer", 32), "int64": ("integer", 64), "integer32": ("integer", 32),
+             "int": ("integer", None), "float16": ("float", 16), "float32": ("float", 32), "float64": ("float", 64), "float": ("float", None),
+             "complex64": ("complex", 64), "complex128": ("complex", 128), "complex": ("complex", None), "bool": ("boolean", None),
+             "boolean": ("boolean", None)}
+    for sp, want in SPELL.items():
+        I_ = Interp(repo)
+        try:
+            out = I_.call(Closure(fo, {}, I_, trel, bound_self=None), [_Cls(), "CTX", sp])
+        except (IUnsupported, PyRaise) as e_:
+            raise AnalysisError(f"Type.fromobject is not interpretable on the spelling {sp!r}: {getattr(e_, 'what', e_)}")
+        okf = isinstance(out, tuple) and len(out) == 3 and (out[1], out[2]) == want
+        r.ob("R7.4", f"typesystem.py::Type.fromobject spelling `{sp}`", okf,
+             f"Type.fromobject(ctx, {sp!r}) is {out[1:] if isinstance(out, tuple) else out!r}, expected {want}: spellings of different widths become one Type, so "
+             "symbols and constants that differ only in such a type get the same key and alias", loc(trel, fo))
     return r
